@@ -85,10 +85,14 @@ def jobs_for(tier, rep):
         jobs.append((dcfg[k % 2], "parse", d))
         if "~" in d:
             jobs.append((dcfg[1 - k % 2], "parse", d))
+    # every emphasis sentence (3 / 4 delimiter runs x spacing of the words between them)
+    es = gen.emphasis_sentences(rep)
+    for k, d in enumerate(es):
+        jobs.append((dcfg[k % 2], "parse" if k % 5 else "parseInline", d))
     for k, d in enumerate(gen.sample(d2 + d0, 8000 if tier == "quick" else 80000, C.SEED + 3)):
         jobs.append((cfgkeys[k % len(cfgkeys)], "parseInline", d))
     rep.cov["bounds"] = {"L1_enumerated": len(l1), "L2_enumerated": len(l2), "L0_enumerated": len(l0),
-                         "configs_enumerated": len(cfgs), "executed": len(jobs), "unicode_twin_docs": len(dt), "delimiter_dense_docs_all_executed": len(ld), "configs_used": len(cfgkeys) + len(extra)}
+                         "configs_enumerated": len(cfgs), "executed": len(jobs), "unicode_twin_docs": len(dt), "delimiter_dense_docs_all_executed": len(ld), "emphasis_sentences_all_executed": len(es), "configs_used": len(cfgkeys) + len(extra)}
     rep.cov["exhaustive"] = False
     return jobs
 
